@@ -26,11 +26,11 @@ d2 == <<d[1], d[2]>>
 
 MapLaws2 == (kind = "maps" /\ d[3] = 1) =>
               /\ FlattenIsRank2(d2) /\ ReshapeAfterFlatten2(d2) /\ FlattenAfterReshape2(d2)
-              /\ Bijection2(d2) /\ IterLaw2(d2)
+              /\ Bijection2(d2) /\ IterLaw2(d2) /\ WalkStyleLaws(d2)
 MapLaws3 == (kind = "maps") =>
               /\ FlattenIsRank3(d) /\ ReshapeAfterFlatten3(d) /\ FlattenAfterReshape3(d)
               /\ CoordsAfterIndex(d) /\ IndexAfterCoords(d)
-              /\ Bijection3(d) /\ SameMaps(d) /\ IterLaw3(d) /\ ForEachWhole(d)
+              /\ Bijection3(d) /\ SameMaps(d) /\ IterLaw3(d) /\ ForEachWhole(d) /\ WalkStyleLaws(d)
 RegionLaws == (kind = "region") => ForEachLaw(d, lo, hi)
 
 \* negative controls (must be VIOLATED: they show that the laws are not vacuous):
@@ -40,4 +40,8 @@ NegTransposedIsRank == (kind = "maps" /\ d[3] = 1) => \A c \in Coords2(d2) : Tra
 \* coordsOf with x and y extents swapped does not invert longIndex
 SwappedCoordsOf(i, dd) == <<i % dd[2], (i \div dd[2]) % dd[1], (i \div dd[2]) \div dd[1]>>
 NegSwappedInverse == (kind = "maps" /\ Total3(d) > 0) => \A c \in Coords3(d) : SwappedCoordsOf(LongIndex(c, d), d) = c
+\* an operator++() whose value stays at the OLD position (while the iterator advances) breaks the loops that use the value
+RECURSIVE WalkWhilePreOld(_, _)
+WalkWhilePreOld(it, e) == IF ItEq(it, e) THEN <<>> ELSE <<Deref(Advanced(it))>> \o WalkWhilePreOld(Advanced(it), e)
+NegPreIncValueOld == (kind = "maps" /\ Total3(d) >= 1) => WalkWhilePreOld(ItBegin(d), ItEnd(d)) = Tail(IterSeq3(d))
 =============================================================================
